@@ -1353,6 +1353,7 @@ static int cfg_parse_internal(cfg_t *cfg, int level, int force_state, cfg_opt_t 
 	cfg_opt_t funcopt = CFG_STR(NULL, NULL, 0);
 
 	int ignore = 0;		/* ignore until this token, traverse parser w/o error */
+	unsigned long skip_depth = 0;	/* open braces inside an unknown section being skipped */
 	int num_values = 0;	/* number of values found for a list option */
 	int rc;
 
@@ -1648,30 +1649,25 @@ static int cfg_parse_internal(cfg_t *cfg, int level, int force_state, cfg_opt_t 
 			}
 			break;
 
-		case 10: /* unknown option, mini-discard parser states: 10-15 */
+		case 10: /* unknown option, mini-discard parser states: 10-14 */
 			if (comment) {
 				free(comment);
 				comment = NULL;
 			}
 
-			if (tok == '+') {
-				ignore = '=';
-				state = 13; /* Append to list, should be followed by '=' */
-			} else if (tok == '=') {
-				ignore = 0;
-				state = 14; /* Assignment, regular handling */
+			if (tok == '+' || tok == '=') {
+				state = 14; /* Assignment or append: a value or a list follows */
 			} else if (tok == '(') {
 				ignore = ')';
 				state = 13; /* Function, ignore until end of param list */
 			} else if (tok == '{') {
-				state = 12; /* Section, ignore all until closing brace */
+				skip_depth = 1;
+				state = 12; /* Section, ignore all until its closing brace */
 			} else if (tok == CFGT_STR) {
 				state = 11; /* No '=' ... must be a titled section */
-			} else if (tok == '}' && force_state == 10) {
-				if (comment)
-					free(comment);
-
-				return STATE_CONTINUE;
+			} else {
+				cfg_error(cfg, _("unexpected token '%s'"), cfg_yylval);
+				goto error;
 			}
 			break;
 
@@ -1680,37 +1676,24 @@ static int cfg_parse_internal(cfg_t *cfg, int level, int force_state, cfg_opt_t 
 				cfg_error(cfg, _("unexpected token '%s'"), cfg_yylval);
 				goto error;
 			}
+			skip_depth = 1;
 			state = 12;
 			break;
 
-		case 12: /* unknown option, recursively ignore entire sub-section */
-			rc = cfg_parse_internal(cfg, level + 1, 10, NULL);
-			if (rc != STATE_CONTINUE)
-				goto error;
-			ignore = '}';
-			state = 13;
+		case 12: /* unknown section: count braces (of nested sections and
+			  * lists alike) until the one that closes it */
+			if (tok == '{') {
+				skip_depth++;
+			} else if (tok == '}' && --skip_depth == 0) {
+				state = 0;
+			}
 			break;
 
 		case 13: /* unknown option, consume tokens silently until end of func/list */
-			if (tok != ignore)
-				break;
-
-			if (ignore == '=') {
+			if (tok == ignore) {
 				ignore = 0;
-				state = 14;
-				break;
+				state = 0;
 			}
-
-			/* Are we done with recursive ignore of sub-section? */
-			if (force_state == 10) {
-				if (comment)
-					free(comment);
-
-				return STATE_CONTINUE;
-			}
-
-			ignore = 0;
-			state = 0;
 			break;
 
 		case 14: /* unknown option, assuming value or start of list */
@@ -1725,15 +1708,7 @@ static int cfg_parse_internal(cfg_t *cfg, int level, int force_state, cfg_opt_t 
 				goto error;
 			}
 
-			ignore = 0;
-			if (force_state == 10)
-				state = 15;
-			else
-				state = 0;
-			break;
-
-		case 15: /* unknown option, dummy read of next parameter in sub-section */
-			state = 10;
+			state = 0;
 			break;
 
 		default:
